@@ -33,7 +33,7 @@ impl TopicName {
     pub fn try_parse(unparsed: &str) -> Option<Self> {
         // Check that the length of the input is at least as long as something that contains
         // a valid topic name.
-        if unparsed.len() <= PROJECT_PREFIX_LEN + TOPIC_PREFIX_LEN + 2 {
+        if unparsed.len() < PROJECT_PREFIX_LEN + TOPIC_PREFIX_LEN + 2 {
             return None;
         }
 
@@ -46,9 +46,20 @@ impl TopicName {
         let project_id = unparsed.get(PROJECT_PREFIX_LEN..)?;
         let project_id = project_id.get(..project_id.find('/')?)?;
 
+        // The project ID must be followed by the topic prefix.
+        let start = PROJECT_PREFIX_LEN + project_id.len();
+        if !unparsed.get(start..)?.starts_with(TOPIC_PREFIX) {
+            return None;
+        }
+
         // Extract the topic ID
-        let start = PROJECT_PREFIX_LEN + project_id.len() + TOPIC_PREFIX_LEN;
+        let start = start + TOPIC_PREFIX_LEN;
         let topic_id = unparsed.get(start..).map(|s| s.trim_matches('/'))?;
+
+        // Neither ID may be empty.
+        if project_id.is_empty() || topic_id.is_empty() {
+            return None;
+        }
 
         Some(TopicName {
             project_id: project_id.into(),
